@@ -107,6 +107,8 @@ def build(pos, left, op, right, org, r, single=None):
 def gen_cases(tier, seed):
     thorough = tier == "thorough"
     k = 0
+    for c in chain_cases():
+        yield c
     for pos in POSITIONS:
         r = rng(seed, "C04", pos)
         pairs = term_pairs(r, thorough)
@@ -146,6 +148,19 @@ def gen_cases(tier, seed):
                            "equs": equs, "mn": mn, "expr": expr}
 
 
+def chain_cases():
+    """an EQU defined by an expression whose exact value leaves -32768..65535, then used in a further expression: if the definition is
+    accepted the symbol has ONE value (the one the symbol table shows, reduced modulo 65536) wherever it is used"""
+    k = 0
+    for c1, c2 in ((-32768, 2), (-200, 1000), (-40000 // 2, 4), (300, 300), (-1, 65535), (-32768, 3), (40000, -2), (-129, 256), (-2, 16385)):
+        for d_ in (2, 3, 16, -2):
+            for use in ("FDB Q/%d", "LDX #Q/%d", "FDB 1,Q/%d"):
+                k += 1
+                yield {"id": "equchain/%d*%d/%s" % (c1, c2, use % d_), "pos": "equ-chain", "chain": (c1, c2, d_),
+                       "lines": ["A EQU %d\n" % c1, "Q EQU A*%d\n" % c2, " ORG $1000\n", " %s\n" % (use % d_), "ZZ9 NOP\n"], "target": 3,
+                       "left": None, "right": None, "op": "/", "equs": {}, "mn": use.split()[0], "expr": "Q/%d" % d_}
+
+
 def term_value(t, labels):
     if t[0] in ("lit", "equ"):
         return t[1]
@@ -156,9 +171,41 @@ def term_kind(t):
     return "none" if t is None else t[0] + ("-" + t[2] if t[0] == "equ" else ("-" + ("before" if t[1] == "LB" else "after") if t[0] == "label" else ""))
 
 
+def run_chain(case, ctx, o):
+    c1, c2, d_ = case["chain"]
+    stmt = case["lines"][case["target"]].strip()
+    wit = {"source": "".join(case["lines"]), "show": "A EQU %d / Q EQU A*%d / %s -> %s" % (c1, c2, stmt, o.brief()[:50])}
+    if o.outcome == "diag":
+        ctx.outcome("chain-rejected")
+        ctx.cell("equ-chain/rejected")
+        return
+    if o.outcome != "ok":
+        ctx.outcome("not-ok:" + o.outcome)
+        ctx.violation("expr", "equ-chain", "NOT-ACCEPTED:%s:%s@%s" % (o.outcome, o.exc, o.where), wit)
+        return
+    q16 = asmmon.parse_symbols(o.symbols).get("Q")
+    exact = c1 * c2
+    b_ = bytes(o.stmts[case["target"]]["bytes"])
+    got = int.from_bytes(b_[-2:], "big")
+    ok_vals = {tdiv(q16, d_) % 65536, tdiv(q16 - 65536, d_) % 65536} if q16 is not None else set()
+    if -32768 <= exact <= 65535:
+        ok_vals = {tdiv(exact, d_) % 65536}
+    if q16 is None or q16 != exact % 65536 or got not in ok_vals:
+        ctx.outcome("wrong-value")
+        ctx.violation("expr", "equ-chain", "SYMBOL-HAS-TWO-VALUES" if q16 == exact % 65536 else "WRONG-VALUE",
+                      dict(wit, symbol_table_Q=q16, exact_Q=exact, emitted=got, allowed=sorted(ok_vals)),
+                      {"range": "in-range" if -32768 <= exact <= 65535 else "out-of-range"})
+        return
+    ctx.outcome("ok")
+    ctx.nontriv(stmt + str(case["chain"]))
+    ctx.cell("equ-chain/accepted-consistent")
+
+
 def run_case(case, ctx):
     o = asmmon.assemble(case["lines"], keep_program=False)
     ctx.mon("M5.outcome")
+    if case.get("chain"):
+        return run_chain(case, ctx, o)
     pos, op = case["pos"], case["op"]
     left, right = case["left"], case["right"]
     left = tuple(left) if left else None
